@@ -4,6 +4,11 @@ For every <worktree>/_mutants/m*/ : confirm independently (tools/confirm_mutant.
 run the quick check against it (tools/try_seed.sh) and write meta.json."""
 import glob, json, os, re, shutil, subprocess, sys
 prop, wt, crate = sys.argv[1:4]
+# several intake chains may run side by side: a chain that finds the property claimed by another one skips it
+claim = "/tmp/intake_claimed_%s_%s" % (prop, os.path.basename(wt))
+if os.path.exists(claim) and open(claim).read().strip() != str(os.getppid()) and not os.environ.get("INTAKE_OWNER"):
+    print("skipped (claimed by another chain):", prop, wt)
+    sys.exit(0)
 extra = sys.argv[4:]
 root = "/verif"
 sd = os.path.join(root, "seeded", prop)
